@@ -240,7 +240,7 @@ EXTRA = {
                 'deleted / re-created with 2-3 context states, several states per state transaction.'),
     'C03': ('; further generated steps: entity.update() followed by nested writes, writes to getter results after their '
             'transaction committed, rejected calls caught inside the transaction body',
-            ' A handed-out object is also written to after entity.update() and after the commit of the transaction that '
+            ' Rejected mk_context_state calls with a handle in use and a context state removed through a descriptor transaction are part of the histories. A handed-out object is also written to after entity.update() and after the commit of the transaction that '
             'handed it out; a rejected call that the application catches inside the body must contribute nothing.'),
     'C05': ('; separate generated part for mex Metadata (hand-written reader) validated as wsx:Metadata',
             ' mex Metadata values with generated ThisModel / ThisDevice / Relationship / wsdl sections are written, '
@@ -275,6 +275,11 @@ EXTRA = {
             ' A real socket connect in a world with a TLS party is a connection outside the soap clients and their TLS '
             'context; addresses the provider derives from peer input must still be https.'),
 }
+
+EXTRA_R5 = {'C04': ('; plus a real-time probe of a subscriber that is slow to answer (asynchronous manager)', ' The application writes to every transaction result before the periodic store is judged; a subscriber that takes 6.5 s to answer must not be overtaken by the next commit.'), 'C08': ('', ' A subscriber can unsubscribe while another one is being served by the same report (synchronous managers).'), 'C11': ('; the entity getters are audited as look-ups, stored objects are handed to the MDIB tables once more', ' entities.items / by_handle / by_parent_handle / by_node_type are compared with a scan after structural operations; keys may repeat in 1:n indices.'), 'C13': ('; a 500 without SOAP fault after a POST is a finding', ' After a POST the last-resort answer of the HTTP handler (500, no SOAP fault) counts as neither proper response nor fault; unknown service elements below the device prefix are generated.'), 'C17': ('; generated sequences of set_used_compression calls on a running provider', ' Part reconfigure: after every set_used_compression call a request accepting every coding is answered through the real handler with the object the provider handed to its server.'), 'C20': ('', ' Versions include 0.')}
+for _k, (_t, _l) in EXTRA_R5.items():
+    _a, _b = EXTRA.get(_k, ('', ''))
+    EXTRA[_k] = (_a + _t, _b + _l)
 
 NOT_YET = {}
 
